@@ -117,6 +117,58 @@ pub fn run(o: &Opts) -> Report {
     if let Some(p) = &o.hashes {
         std::fs::write(p, lines.join("\n") + "\n").unwrap();
     }
+    // reference cycles of length 1..6 in three declaration orders, with / without leading and trailing
+    // leaf rules, with reduced boxing: they must still compile
+    for n in 1..=6usize {
+        for order in 0..3 {
+            for (lead, trail) in [(false, false), (true, false), (false, true), (true, true)] {
+                let mut cyc: Vec<String> = (0..n)
+                    .map(|i| {
+                        if n == 1 {
+                            "r0 = { \"(\" ~ r0? ~ \")\" }".to_string()
+                        } else {
+                            format!("r{} = {{ \"a\" ~ r{}? }}", i, (i + 1) % n)
+                        }
+                    })
+                    .collect();
+                match order {
+                    1 => cyc.reverse(),
+                    2 => cyc.rotate_left(1.min(n - 1)),
+                    _ => {}
+                }
+                let mut lines = vec![];
+                if lead {
+                    lines.push("lead = { \"l\" }".to_string());
+                }
+                lines.extend(cyc);
+                if trail {
+                    lines.push("tail = { \"t\" }".to_string());
+                }
+                let src = lines.join("\n");
+                for set in [vec!["box_only_if_needed"], vec!["box_only_if_needed", "pest_optimizer = false"]] {
+                    rep.cases += 1;
+                    match generate(&src, &set) {
+                        Ok(_) => {
+                            rep.nontrivial += 1;
+                            compile_probe.push((src.clone(), set.iter().map(|s| s.to_string()).collect()));
+                        }
+                        Err(p) => rep.violation(Violation {
+                            lens: "C20".into(),
+                            signature: "generator-panics-with-option-set".into(),
+                            grammar: format!("cycle{}", n),
+                            rule_def: src.replace('\n', " ; "),
+                            input: src.clone(),
+                            options: set.join(" "),
+                            form: "grammar".into(),
+                            expected: "code".into(),
+                            actual: p.lines().next().unwrap_or("").to_string(),
+                            ..Default::default()
+                        }),
+                    }
+                }
+            }
+        }
+    }
     if let Some(dir) = &o.probes {
         write_probe_crates(dir, "probe_opt", &compile_probe, 100000);
     }
